@@ -118,3 +118,66 @@ benign(
     ["C04"],
     (PLAN, "        self.validate()\n\n        dag = self.dag\n", "        warnings.warn('executing')\n        self.validate()\n\n        dag = self.dag\n"),
 )
+
+# ---------------------------------------------------------------- C16 (+ C04 EFFECT-BUILD)
+CREATION = "cubed/array_api/creation_functions.py"
+MANIP = "cubed/array_api/manipulation_functions.py"
+ZARR = "cubed/storage/zarr.py"
+
+mutant(
+    "M64-store-eager-outside-flag",
+    ["C16", "C11"],
+    "LAZY-ENTRY-1",
+    (OPS, "    if compute:\n        compute_arrays(\n            *arrays, executor=executor, _return_in_memory_array=False, **kwargs\n        )\n    else:\n        return tuple(arrays)", "    compute_arrays(\n        *arrays, executor=executor, _return_in_memory_array=False, **kwargs\n    )\n    if not compute:\n        return tuple(arrays)"),
+    also=("STORE-EAGER-1",),
+)
+mutant(
+    "M74-lazy-zarr-array-created-eagerly",
+    ["C16", "C04"],
+    "LAZY-ENTRY-1",
+    (ZARR, "    return LazyZarrArray(\n        store,\n        shape,\n        dtype,\n        chunks,\n        path=path,\n        **kwargs,\n    )", "    lza = LazyZarrArray(\n        store,\n        shape,\n        dtype,\n        chunks,\n        path=path,\n        **kwargs,\n    )\n    lza.create(mode=\"a\")\n    return lza"),
+    also=("LAZY-CREATE-1",),
+)
+mutant(
+    "M75-builder-computes-argument",
+    ["C16"],
+    "LAZY-ENTRY-1",
+    (CREATION, "def empty_like(x, /, *, dtype=None, device=None, chunks=None, spec=None) -> \"Array\":\n", "def empty_like(x, /, *, dtype=None, device=None, chunks=None, spec=None) -> \"Array\":\n    x.compute()\n"),
+)
+mutant(
+    "M75b-plan-runs-create-arrays",
+    ["C16", "C04"],
+    "LAZY-ENTRY-1",
+    (PLAN, "        dag = self._create_lazy_zarr_arrays(dag)\n        ops_exceeding_memory", "        dag = self._create_lazy_zarr_arrays(dag)\n        for lza in [d['target'] for _, d in dag.nodes(data=True) if isinstance(d.get('target'), LazyZarrArray)]:\n            create_zarr_array(lza)\n        ops_exceeding_memory"),
+    also=("LAZY-CREATE-1",),
+)
+mutant(
+    "M75c-from-zarr-append-mode",
+    ["C16"],
+    "LAZY-CREATE-1",
+    (OPS, "    target = open_storage_array(\n        store,\n        mode=\"r\",", "    target = open_storage_array(\n        store,\n        mode=\"a\","),
+    also=("LAZY-ENTRY-1",),
+)
+mutant(
+    "M75d-visualize-executes",
+    ["C16"],
+    "LAZY-ENTRY-1",
+    (ARRAY, "    return finalized_plan.visualize(\n", "    finalized_plan.execute(executor=create_executor('single-threaded'))\n    return finalized_plan.visualize(\n"),
+    also=("ADMIT-ENTRY-1",),
+)
+mutant(
+    "M75e-index-computes-any-key",
+    ["C16"],
+    "LAZY-ENTRY-1",
+    (
+        "cubed/core/indexing.py",
+        "        backend_array_to_numpy_array(dim_sel.compute())\n        if isinstance(dim_sel, CoreArray)\n        else dim_sel\n",
+        "        backend_array_to_numpy_array(dim_sel.compute())\n        if hasattr(dim_sel, 'compute')\n        else dim_sel\n",
+    ),
+)
+benign("B-from-zarr-rplus", ["C16", "C10"], (OPS, "    target = open_storage_array(\n        store,\n        mode=\"r\",", "    target = open_storage_array(\n        store,\n        mode=\"r+\","))
+benign(
+    "B-to-zarr-early-return",
+    ["C16", "C11"],
+    (OPS, "    out = _store_array(x, store, path=path, region=region)\n    if compute:\n        out.compute(executor=executor, _return_in_memory_array=False, **kwargs)\n    else:\n        return out", "    out = _store_array(x, store, path=path, region=region)\n    if not compute:\n        return out\n    out.compute(executor=executor, _return_in_memory_array=False, **kwargs)"),
+)
